@@ -26,6 +26,19 @@ fn reads_ok(defs: &[Def], own: usize, e: &Expr, memo: bool) -> bool {
         Expr::Mulc(_, a) => reads_ok(defs, own, a, memo),
         Expr::Ite(c, t, f) => reads_ok(defs, own, c, memo) && reads_ok(defs, own, t, memo) && reads_ok(defs, own, f, memo),
         Expr::Wr(i, a) => !memo && matches!(defs.get(*i), Some(Def::Sig(_))) && reads_ok(defs, own, a, memo),
+        Expr::Unt(a) => all_untracked(a) && reads_ok(defs, own, a, memo),
+    }
+}
+
+/// inside `unt` every read is written `U<id>` and there is no write
+fn all_untracked(e: &Expr) -> bool {
+    match e {
+        Expr::Lit(_) => true,
+        Expr::Rd(t, _) => !*t,
+        Expr::Add(a, b) | Expr::Seq(a, b) => all_untracked(a) && all_untracked(b),
+        Expr::Mulc(_, a) | Expr::Unt(a) => all_untracked(a),
+        Expr::Ite(c, t, f) => all_untracked(c) && all_untracked(t) && all_untracked(f),
+        Expr::Wr(..) => false,
     }
 }
 
@@ -101,6 +114,15 @@ impl Runner {
                 c.set_mode(true);
                 "ok".into()
             }
+            ["wrap", w] => {
+                let Ok(w) = w.parse::<u8>() else { return "bad-op".into() };
+                c.set_wrap(w);
+                "ok".into()
+            }
+            ["pauseall"] | ["resumeall"] => {
+                c.root_op(w[0]);
+                self.after(mode, None)
+            }
             ["sig", ..] | ["memo", ..] | ["eff", ..] | ["reff", ..] => {
                 let Some(d) = parse_def(&w) else { return "bad-op".into() };
                 let (n, ok) = {
@@ -142,7 +164,7 @@ impl Runner {
                 let (Ok(id), Ok(v)) = (id.parse::<usize>(), v.parse::<i64>()) else { return "bad-op".into() };
                 // who subscribed to this signal directly, and when (for the wake-order oracle)
                 self.written = Some(id);
-                if !self.case.as_ref().unwrap().set(id, v) {
+                if !self.case.as_mut().unwrap().set(id, v) {
                     return "bad-op".into();
                 }
                 let r = self.after(mode, None);
